@@ -163,7 +163,9 @@ func (c01) Gen(r *simrt.Rand, idx int, tier string) *Case {
 	c.J = Gen(r, g)
 	c.L = RandLayout(r, c.J, 4)
 	c.Today = (anchors[r.Intn(len(anchors))] + Day(r.Range(0, 1200))).String()
-	f := GenBalFlags(r, c.J, FlagOpts{NoFilters: true, NoMapping: true, Valued: valued})
+	// a third of the cases shorten accounts (-m with a level of at least 1) or move them to the
+	// other section (--remap): nothing is filtered out or hidden by that
+	f := GenBalFlags(r, c.J, FlagOpts{NoFilters: true, NoMapping: idx%3 != 2, KeepAll: true, Valued: valued})
 	if valued && len(c.J.Commodities()) < 2 {
 		f.Val = ""
 	}
